@@ -53,6 +53,7 @@ ASSUMPTIONS = ['context switches only at blocking calls: an event (send, timer c
                'a timer object expires at most once and never after cancel() (threading.Timer contract)',
                'open_link is called only while the link is closed; link errors are reported only by the driver of the open link']
 OUTSIDE = ['races between Timer.cancel() and a callback already running on the timer thread',
+           'requests submitted without expected_reply (never retried, by design)',
            'identical patterns pending simultaneously', 'more requests / events / sessions than the bounds',
            'retry traffic of the connection sequence itself (TOC download etc.: C02/C03)']
 EXPLANATION = 'C10: event histories (send / timer expiry / packet arrival / close / open / link error) chosen by the solver among the ' \
@@ -541,11 +542,14 @@ HARNESSES = [
     # both concerns at once, small: symbolic pattern and packets with close / open / link error
     Harness('sessions[symbolic]', h_history,
             quick=dict(p=1, events=4, kinds=ALL, nr='sym', sessions=2, send_closed=True),
-            thorough=dict(p=2, maxlen=2, events=5, kinds=ALL, nr='sym', sessions=2, send_closed=True),
+            thorough=dict(p=1, events=5, kinds=ALL, nr='sym', sessions=2, send_closed=True),
             timeout=(290, 1700), goals=_SESSION_GOALS + ('closed', 'link-error')),
+    Harness('sessions[symbolic,2]', h_history,
+            quick=dict(p=2, explen=(1, 2), events=5, kinds=ALL, nr='sym', sessions=2, send_closed=True),
+            timeout=(290, 1700), tiers=('thorough',), goals=_SESSION_GOALS + ('closed', 'link-error', 'longest-prefix-chosen')),
     # concern 3: the retry period is the request's own timeout (explicit 1.0 s as the memory subsystem uses, and the default)
     Harness('interval', h_history,
             quick=dict(p=2, concrete=True, events=6, kinds=(SEND, FIRE, RX), nr=True, sessions=1, timeouts=(1.0, None), max_rx=1),
-            thorough=dict(p=3, concrete=True, events=7, kinds=(SEND, FIRE, RX), nr=True, sessions=1, timeouts=(1.0, None, 0.5), max_rx=2),
+            thorough=dict(p=3, concrete=True, events=6, kinds=(SEND, FIRE, RX), nr=True, sessions=1, timeouts=(1.0, None, 0.5), max_rx=1),
             timeout=(290, 1700), goals=('retransmitted', 'retransmitted-twice', 'answered')),
 ]
